@@ -109,7 +109,7 @@ def _int(c):
     return int(s)
 
 
-STORAGE_FIELDS = ("storage_", "impl_")
+STORAGE_FIELDS = ("storage_", "impl_", "data_")
 
 
 def root_of(base):
